@@ -36,3 +36,294 @@ Proof.
   destruct (header_attr_total a) as (nme & val & ->).
   repeat match goal with |- context [if ?c then _ else _] => destruct c end; apply IH.
 Qed.
+
+(* ---------- count_lines ---------- *)
+Lemma count_lines_app a b : count_lines (a ++ b) = (count_lines a + count_lines b)%N.
+Proof. unfold count_lines. rewrite filter_app, app_length. lia. Qed.
+
+Lemma count_lines_split n l : (count_lines (firstn n l) + count_lines (skipn n l))%N = count_lines l.
+Proof. rewrite <- count_lines_app, firstn_skipn. reflexivity. Qed.
+
+Lemma count_lines_firstn_le n l : (count_lines (firstn n l) <= count_lines l)%N.
+Proof. pose proof (count_lines_split n l). lia. Qed.
+Lemma count_lines_skipn_le n l : (count_lines (skipn n l) <= count_lines l)%N.
+Proof. pose proof (count_lines_split n l). lia. Qed.
+Lemma count_lines_cons_le x l : (count_lines l <= count_lines (x :: l))%N.
+Proof. change (x :: l) with ([x] ++ l). rewrite count_lines_app. lia. Qed.
+Lemma count_lines_removelast_le l : (count_lines (removelast l) <= count_lines l)%N.
+Proof. rewrite removelast_firstn_len. apply count_lines_firstn_le. Qed.
+
+Lemma position_split {p : N -> bool} l n : position p l = Some n ->
+  exists x, p x = true /\ l = firstn n l ++ x :: skipn (S n) l.
+Proof.
+  revert n; induction l as [|y l IH]; intros n; cbn [position]; [discriminate|].
+  destruct (p y) eqn:Py.
+  - intros [= <-]. exists y. split; [exact Py|reflexivity].
+  - destruct (position p l) as [k|]; [|discriminate]. cbn [option_map]. intros [= <-].
+    destruct (IH k eq_refl) as (x & Px & E). exists x. split; [exact Px|].
+    cbn [firstn skipn app]. cbn [skipn] in E. rewrite <- E. reflexivity.
+Qed.
+
+(* ---------- the termination measure and the line potential ---------- *)
+Definition nu (st : lstate) : nat :=
+  (List.length (l_rest st) + match l_deferred st with Some _ => 1 | None => 0 end)%nat.
+(* the line counter plus the line feeds still ahead never grows *)
+Definition phi (st : lstate) : N := (l_line st + count_lines (l_rest st))%N.
+
+Definition lex_spec (st : lstate) (r : res lexout) : Prop :=
+  match r with
+  | Val (LOk line ev st') =>
+      (l_line st <= line <= l_line st')%N /\
+      (exists consumed, l_rest st = consumed ++ l_rest st' /\ (l_line st' <= l_line st + count_lines consumed)%N) /\
+      match ev with
+      | EvEOF => l_rest st' = [] /\ l_deferred st' = None
+      | _ => (nu st' < nu st)%nat
+      end
+  | Val (LErr line e) => (l_line st <= line <= phi st)%N
+  | Pan _ => False
+  | Fuel => False
+  end.
+
+Lemma lex_spec_phi st line ev st' : lex_spec st (Val (LOk line ev st')) -> (phi st' <= phi st)%N.
+Proof.
+  intros (_ & (c & E & L) & _). unfold phi. rewrite E, count_lines_app. lia.
+Qed.
+
+(* composing a skipped piece (ignored processing instruction, blank text) with the rest of the step *)
+Lemma lex_spec_skip st mid r :
+  l_deferred st = None -> l_deferred mid = None ->
+  (exists consumed, l_rest st = consumed ++ l_rest mid /\ consumed <> [] /\
+                    (l_line st <= l_line mid <= l_line st + count_lines consumed)%N) ->
+  lex_spec mid r -> lex_spec st r.
+Proof.
+  intros D Dm (c & E & NE & L) H. unfold lex_spec in *.
+  assert (LEN : (List.length (l_rest mid) < List.length (l_rest st))%nat).
+  { rewrite E, app_length. destruct c; [congruence|cbn [List.length]; lia]. }
+  destruct r as [[line ev st'|line e]| |]; try exact H.
+  - destruct H as (H1 & (c2 & E2 & L2) & H3). split; [lia|]. split.
+    + exists (c ++ c2). split; [rewrite E, E2, app_assoc; reflexivity|]. rewrite count_lines_app. lia.
+    + destruct ev; try exact H3; unfold nu in *; rewrite D; rewrite Dm in H3; lia.
+  - unfold phi in *. rewrite E, count_lines_app. lia.
+Qed.
+
+Lemma comment_end_spec fuel rest : forall k k', comment_end fuel rest k = Some k' -> (k <= k' < List.length rest)%nat.
+Proof.
+  induction fuel as [|f IH]; intros k k'; cbn [comment_end]; [discriminate|].
+  destruct (k <? List.length rest)%nat eqn:L; [|discriminate]. apply Nat.ltb_lt in L.
+  destruct (starts_with [45; 45; 62] (skipn (k - 2) rest)).
+  - intros [= <-]. lia.
+  - intros H. apply IH in H. lia.
+Qed.
+
+Lemma skipn_S_length {A} n (l : list A) : (n < List.length l)%nat -> (List.length (skipn (S n) l) < List.length l - n)%nat.
+Proof. intros H. rewrite skipn_length. lia. Qed.
+
+Theorem lex_next_spec fuel : forall st, (List.length (l_rest st) < fuel)%nat -> lex_spec st (lex_next fuel st).
+Proof.
+  induction fuel as [|fuel IH]; intros [rest line deferred] LEN; cbn [l_rest] in LEN; [lia|].
+  cbn [lex_next l_deferred l_rest l_line].
+  destruct deferred as [name|].
+  { (* deferred end element *)
+    cbn [lex_spec l_line l_rest l_deferred]. split; [lia|]. split.
+    - exists []. split; [reflexivity|]. cbn. lia.
+    - unfold nu; cbn [l_rest l_deferred]. lia. }
+  destruct rest as [|c0 tail].
+  { cbn [lex_spec l_line l_rest l_deferred]. split; [lia|]. split; [|split; reflexivity].
+    exists []. split; [reflexivity|]. cbn. lia. }
+  destruct (N.eqb_spec c0 60) as [->|NE].
+  2:{ (* read_characters *)
+    assert (GEN : forall R, R = (c0 :: tail) ->
+      lex_spec {| l_rest := R; l_line := line; l_deferred := None |}
+       (let n := match position (N.eqb 60) R with Some n => n | None => List.length R end in
+        let text := firstn n R in
+        let line' := (line + count_lines text)%N in
+        let st' := {| l_rest := skipn n R; l_line := line'; l_deferred := None |} in
+        if forallb is_ws text then lex_next fuel st' else Val (LOk line' (EvChars text) st'))).
+    { intros R ER. cbv zeta.
+      set (n := match position (N.eqb 60) R with Some n => n | None => List.length R end).
+      assert (Hn : (1 <= n <= List.length R)%nat).
+      { unfold n. destruct (position (N.eqb 60) R) as [k|] eqn:P.
+        - apply position_Some in P as (L & (x & Hx & Px) & _). split; [|lia].
+          destruct k; [|lia]. subst R. cbn in Hx. injection Hx as <-. apply N.eqb_eq in Px. congruence.
+        - subst R. cbn [List.length]. lia. }
+      assert (NEc : firstn n R <> []).
+      { intros E. apply (f_equal (@List.length N)) in E. rewrite firstn_length in E. cbn in E. lia. }
+      destruct (forallb is_ws (firstn n R)).
+      - eapply lex_spec_skip; [ | | |apply IH]; [reflexivity|reflexivity| | ].
+        + cbn [l_rest l_line]. exists (firstn n R). split; [symmetry; apply firstn_skipn|]. split; [exact NEc|lia].
+        + cbn [l_rest]. rewrite skipn_length. subst R. cbn [List.length] in *. lia.
+      - cbn [lex_spec l_line l_rest l_deferred]. split; [lia|]. split.
+        + exists (firstn n R). split; [symmetry; apply firstn_skipn|lia].
+        + unfold nu; cbn [l_rest l_deferred]. rewrite skipn_length. lia. }
+    specialize (GEN _ eq_refl). cbv zeta in GEN.
+    destruct c0 as [|p]; [exact GEN|].
+    repeat (destruct p as [p|p|]; try exact GEN). congruence. }
+  (* '<' *)
+  destruct (position (N.eqb 62) tail) as [findpos|] eqn:P.
+  2:{ cbn [lex_spec l_line]. unfold phi; cbn [l_line l_rest]. lia. }
+  destruct findpos as [|fp].
+  { cbn [lex_spec l_line]. unfold phi; cbn [l_line l_rest]. lia. }
+  set (findpos := S fp) in *.
+  destruct (position_split _ _ P) as (x & Hx & SPLIT). apply N.eqb_eq in Hx. subst x.
+  pose proof (position_Some _ _ P) as (LT & _ & _).
+  set (inner := firstn findpos tail) in *. set (after := skipn (S findpos) tail) in *.
+  assert (LI : List.length inner = findpos) by (unfold inner; rewrite firstn_length; lia).
+  assert (CL : count_lines tail = (count_lines inner + count_lines after)%N).
+  { rewrite SPLIT at 1. rewrite count_lines_app. change (62 :: after)%N with ([62%N] ++ after). rewrite count_lines_app.
+    change (count_lines [62%N]) with 0%N. lia. }
+  assert (CLR : count_lines (60%N :: tail) = count_lines tail).
+  { change (60%N :: tail) with ([60%N] ++ tail). rewrite count_lines_app. reflexivity. }
+  assert (LA : (List.length after + findpos + 1 = List.length tail)%nat).
+  { unfold after. rewrite skipn_length. lia. }
+  assert (CONS : forall l', (l' <= line + count_lines inner)%N ->
+            exists consumed, 60%N :: tail = consumed ++ after /\ (l' <= line + count_lines consumed)%N).
+  { intros l' Hl. exists (60%N :: inner ++ [62%N]). split.
+    - cbn [app]. rewrite <- app_assoc. cbn [app]. rewrite <- SPLIT. reflexivity.
+    - change (60%N :: inner ++ [62%N]) with ([60%N] ++ inner ++ [62%N]). rewrite !count_lines_app.
+      change (count_lines [60%N]) with 0%N. change (count_lines [62%N]) with 0%N. lia. }
+  (* the four kinds of tag; the default branch is duplicated by the match compilation, so state it once *)
+  assert (BEGIN :
+    lex_spec {| l_rest := 60%N :: tail; l_line := line; l_deferred := None |}
+      (let is_end := N.eqb (last inner 0%N) 47 in
+       let text := if is_end then removelast inner else inner in
+       let '(elemname, attributes) :=
+         match position is_ws text with
+         | Some sp => (firstn sp text, skipn (S sp) text)
+         | None => (text, [])
+         end in
+       Val (LOk line (EvBegin elemname attributes)
+              {| l_rest := after; l_line := (line + count_lines text)%N;
+                 l_deferred := if is_end then Some elemname else None |}))).
+  { cbv zeta. set (text := if N.eqb (last inner 0%N) 47 then removelast inner else inner).
+    assert (CT : (count_lines text <= count_lines inner)%N).
+    { unfold text. destruct (N.eqb (last inner 0%N) 47); [apply count_lines_removelast_le|lia]. }
+    destruct (match position is_ws text with Some sp => (firstn sp text, skipn (S sp) text) | None => (text, []) end)
+      as [elemname attributes].
+    cbn [lex_spec l_line l_rest l_deferred]. split; [lia|]. split; [apply CONS; lia|].
+    unfold nu; cbn [l_rest l_deferred List.length]. destruct (N.eqb (last inner 0%N) 47); lia. }
+  destruct tail as [|c1 tail']; [cbn in LT; lia|].
+  destruct (N.eqb_spec c1 47) as [->|N47].
+  { (* end element *)
+    cbn [lex_spec l_line l_rest l_deferred]. split; [lia|]. split; [apply CONS; lia|].
+    unfold nu; cbn [l_rest l_deferred List.length] in *. lia. }
+  destruct (N.eqb_spec c1 63) as [->|N63].
+  { (* processing instruction / xml header *)
+    destruct ((findpos <? 2)%nat || negb (N.eqb (last inner 0%N) 63)) eqn:PI.
+    { cbn [lex_spec l_line]. unfold phi; cbn [l_line l_rest]. lia. }
+    apply orb_false_iff in PI as [PI1 _]. rewrite PI1.
+    set (text := firstn (findpos - 2) (skipn 1 inner)).
+    assert (CT : (count_lines text <= count_lines inner)%N).
+    { unfold text. etransitivity; [apply count_lines_firstn_le|apply count_lines_skipn_le]. }
+    destruct (bytes_eqb (hd [] (split_ws text)) (BS "xml")).
+    - destruct (header_attrs_total (tl (split_ws text)) [] [] None) as (v & e & s & ->).
+      destruct (negb (bytes_eqb v (BS "1.0")) || negb (encoding_ok e)).
+      + cbn [lex_spec l_line]. unfold phi; cbn [l_line l_rest]. lia.
+      + cbn [lex_spec l_line l_rest l_deferred]. split; [lia|]. split; [apply CONS; lia|].
+        unfold nu; cbn [l_rest l_deferred List.length] in *. lia.
+    - eapply lex_spec_skip; [ | | |apply IH]; [reflexivity|reflexivity| | ].
+      + cbn [l_rest l_line]. destruct (CONS (line + count_lines text)%N ltac:(lia)) as (c & E & L).
+        exists c. split; [exact E|]. split; [|lia].
+        intros ->. cbn [app] in E. apply (f_equal (@List.length N)) in E. cbn [List.length] in E, LA. lia.
+      + cbn [l_rest List.length] in *. lia. }
+  destruct (N.eqb_spec c1 33) as [->|N33].
+  { (* comment *)
+    set (rest := (60 :: 33 :: tail')%N) in *.
+    destruct (comment_end (S (List.length rest)) rest (S findpos)) as [k|] eqn:CE.
+    2:{ cbn [lex_spec l_line]. unfold phi; cbn [l_line l_rest]. lia. }
+    apply comment_end_spec in CE.
+    destruct ((k <? 6)%nat || negb (starts_with [60; 33; 45; 45]%N (firstn k rest)) || negb (ends_with [45; 45]%N (firstn k rest))).
+    { cbn [lex_spec l_line]. unfold phi; cbn [l_line l_rest]. lia. }
+    cbn [lex_spec l_line l_rest l_deferred]. split; [lia|]. split.
+    - exists (firstn (S k) rest). split; [symmetry; apply firstn_skipn|].
+      pose proof (count_lines_split k (firstn (S k) rest)) as S1.
+      rewrite firstn_firstn in S1. replace (Nat.min k (S k)) with k in S1 by lia. lia.
+    - unfold nu; cbn [l_rest l_deferred]. rewrite skipn_length. lia. }
+  (* begin element: c1 is none of '/', '?', '!' *)
+  cbv zeta in BEGIN.
+  destruct c1 as [|p]; [exact BEGIN|].
+  repeat (destruct p as [p|p|]; try exact BEGIN); congruence.
+Qed.
+
+(* C02, lexer part: `next` is total with the fuel lex_fuel *)
+Theorem next_spec st : lex_spec st (next st).
+Proof. unfold next, lex_fuel. apply lex_next_spec. lia. Qed.
+
+(* ---------- all states the lexer can reach on a given input ---------- *)
+Inductive lex_reach (bs : list N) : lstate -> Prop :=
+| reach_new : lex_reach bs (lexer_new bs)
+| reach_step st line ev st' : lex_reach bs st -> next st = Val (LOk line ev st') -> lex_reach bs st'.
+
+Definition lex_inv (bs : list N) (st : lstate) : Prop :=
+  (1 <= l_line st)%N /\ (phi st <= 1 + count_lines bs)%N.
+
+Lemma lexer_new_rest bs : l_rest (lexer_new bs) = bs \/ l_rest (lexer_new bs) = skipn 3 bs.
+Proof.
+  unfold lexer_new; cbn [l_rest].
+  destruct bs as [|b0 [|b1 [|b2 [|b3 r]]]]; auto;
+  (destruct b0 as [|p]; auto; repeat (destruct p as [p|p|]; auto));
+  (destruct b1 as [|p]; auto; repeat (destruct p as [p|p|]; auto));
+  (destruct b2 as [|p]; auto; repeat (destruct p as [p|p|]; auto)).
+Qed.
+
+Lemma lexer_new_inv bs : lex_inv bs (lexer_new bs).
+Proof.
+  unfold lex_inv, phi. split; [cbn; lia|]. change (l_line (lexer_new bs)) with 1%N.
+  destruct (lexer_new_rest bs) as [->| ->]; [lia|]. pose proof (count_lines_skipn_le 3 bs). lia.
+Qed.
+
+Lemma lex_inv_step bs st line ev st' : lex_inv bs st -> next st = Val (LOk line ev st') -> lex_inv bs st'.
+Proof.
+  intros [I1 I2] E. pose proof (next_spec st) as H. rewrite E in H.
+  pose proof (lex_spec_phi _ _ _ _ H) as P. destruct H as (H1 & _). split; lia.
+Qed.
+
+Lemma lex_reach_inv bs st : lex_reach bs st -> lex_inv bs st.
+Proof. induction 1; [apply lexer_new_inv|eapply lex_inv_step; eassumption]. Qed.
+
+(* every line the lexer reports — with a token or with an error — lies in [1, 1 + number of line feeds] *)
+Definition line_ok (bs : list N) (line : N) : Prop := (1 <= line <= 1 + count_lines bs)%N.
+
+Lemma lex_inv_lines bs st : lex_inv bs st ->
+  match next st with
+  | Val (LOk line _ st') => line_ok bs line /\ lex_inv bs st'
+  | Val (LErr line _) => line_ok bs line
+  | _ => False
+  end.
+Proof.
+  intros I. pose proof (next_spec st) as H. pose proof (lex_inv_step bs st) as S.
+  destruct (next st) as [[line ev st'|line e]| |]; try exact H.
+  - specialize (S _ _ _ I eq_refl). split; [|exact S]. destruct H as (H1 & _). destruct S as [S1 S2].
+    destruct I as [I1 I2]. unfold line_ok, phi in *. lia.
+  - destruct I as [I1 I2]. unfold lex_spec in H. unfold line_ok. lia.
+Qed.
+
+Theorem lexer_total bs st : lex_reach bs st ->
+  match next st with
+  | Val (LOk line _ _) => line_ok bs line
+  | Val (LErr line _) => line_ok bs line
+  | _ => False
+  end.
+Proof.
+  intros R. pose proof (lex_inv_lines bs st (lex_reach_inv _ _ R)) as H.
+  destruct (next st) as [[line ev st'|line e]| |]; try exact H. apply H.
+Qed.
+
+Theorem lexer_total_full bs st : lex_reach bs st ->
+  match next st with
+  | Val (LOk line ev st') =>
+      (1 <= line <= 1 + count_lines bs)%N /\ (l_line st <= line <= l_line st')%N /\
+      (exists consumed, l_rest st = consumed ++ l_rest st' /\ (l_line st' <= l_line st + count_lines consumed)%N) /\
+      match ev with
+      | EvEOF => l_rest st' = [] /\ l_deferred st' = None
+      | _ => (List.length (l_rest st') + match l_deferred st' with Some _ => 1 | None => 0 end
+              < List.length (l_rest st) + match l_deferred st with Some _ => 1 | None => 0 end)%nat
+      end
+  | Val (LErr line e) => (1 <= line <= 1 + count_lines bs)%N
+  | Pan _ => False
+  | Fuel => False
+  end.
+Proof.
+  intros R. pose proof (lexer_total bs st R) as L. pose proof (next_spec st) as H.
+  destruct (next st) as [[line ev st'|line e]| |]; try exact H; [|exact L].
+  destruct H as (H1 & H2 & H3). split; [exact L|]. split; [exact H1|]. split; [exact H2|exact H3].
+Qed.
